@@ -237,7 +237,21 @@ def run(ctx):
             return
 
 
+_run_core = run
+
+
+def run(ctx):
+    _run_core(ctx)
+    if ctx.n_new() == 0 and ctx.driver_ok:
+        from harness.common import run_demo
+        run_demo(ctx, 'demo_tr3.py', [1 + ctx.seed], 'c20-code-vs-generated-vs-model',
+                 'predict_proba / predict_log_proba / predict vs generated definitions vs posterior model', env_extra=dict(DEMO_SECTIONS='e'))
+
+
 def replay(rep):
+    if rep['replay'].get('kind') == 'demo':
+        from harness.common import replay_demo
+        return replay_demo(rep['replay'])
     r = rep['replay']
     if r['kind'] != 'c20':
         print('estimator case: re-run the check with VERIF_SEED =', r.get('seed'))
